@@ -377,6 +377,6 @@ def _shared_c09(ctx):
     from .c12 import label_sinks
     from .c19 import lifecycle_of
     ctx.rule("R09.7", "fit does not depend on state left by an earlier fit and prediction writes no state (shared with C19 R19.3 / R19.4)")
-    lifecycle_of(ctx, [GS], {"R19.3": "R09.7", "R19.4": "R09.7"})
+    lifecycle_of(ctx, [GS], {"R19.3": "R09.7", "R19.4": "R09.7", "R19.6": "R09.7"})
     ctx.rule("R09.8", "no caller-labelled pandas value reaches a label-aligning operation on the paths of this property (shared with C12 R12.1)")
     label_sinks(ctx, "R09.8", [(GS + ".fit", GS)])
